@@ -642,6 +642,14 @@ class PathCtx:
                 raise PathInfeasible()
         self.decisions.append(d)
         c = cond if d else z3.Not(cond)
+        # an existential decided true (a universal decided false) is skolemised, and the witness
+        # is recorded so that contracts can speak about "the element that triggered this branch"
+        q = cond
+        if z3.is_quantifier(q) and ((d and q.is_exists()) or (not d and q.is_forall())):
+            ws = [self.fresh('w!' + q.var_name(k), q.var_sort(k)) for k in range(q.num_vars())]
+            body = z3.substitute_vars(q.body(), *reversed(ws))
+            c = body if d else z3.Not(body)
+            self.ghost.setdefault('witnesses', []).append(ws)
         self.pc.append(c)
         self.solver.add(c)
         return d
